@@ -48,12 +48,17 @@ var scenarios = map[string]RunFunc{}
 
 // Register makes a scenario available to driver and workers.  A parameter
 // ending in "+rev" runs the scenario under the reverse-priority default
-// scheduler (verifmc.Options.Reverse); the suffix is not passed on.
+// scheduler (verifmc.Options.Reverse), "+rr" under the round-robin default
+// scheduler (verifmc.Options.RoundRobin); the suffix is not passed on.
 func Register(name string, f RunFunc) {
 	scenarios[name] = func(opts verifmc.Options, param string) (*verifmc.Sched, *Result) {
 		if strings.HasSuffix(param, "+rev") {
 			opts.Reverse = true
 			param = strings.TrimSuffix(param, "+rev")
+		}
+		if strings.HasSuffix(param, "+rr") {
+			opts.RoundRobin = true
+			param = strings.TrimSuffix(param, "+rr")
 		}
 		return f(opts, param)
 	}
